@@ -579,7 +579,9 @@ pub mod inner {
             T: Clone,
         {
             if self.is_contiguous() {
-                self.data.fill(val);
+                // Only the cells of the view: the data may extend past them
+                let (w, h) = (self.dims.0 as usize, self.dims.1 as usize);
+                self.data[..w * h].fill(val);
             } else {
                 self.rows_mut()
                     .for_each(|row| row.fill(val.clone()));
